@@ -21,6 +21,11 @@ class InjectedFault(Exception):
     """Raised by the simulator at a scheduled crash point."""
 
 
+class InjectedInterrupt(BaseException):
+    """Asynchronous interruption (the analogue of Ctrl-C / task cancellation):
+    not an Exception, so ``except Exception`` clean-up code does not see it."""
+
+
 class InjectedIOError(fs.errors.OperationFailed):
     """Disk error (EIO) raised by SimFS at a scheduled operation."""
 
@@ -327,6 +332,8 @@ class TraceFault:
             }
             if self.kind == "mem":
                 raise MemoryError("simulated allocation failure")
+            if self.kind == "intr":
+                raise InjectedInterrupt("interrupted at crash point %d" % self.count)
             raise InjectedFault("crash point %d at %s" % (self.count, self.fired["site"]))
 
     def _global(self, frame, event, arg):
